@@ -105,6 +105,7 @@ func runC16(c *Ctx) {
 		adm.PodLister = lister
 		return adm
 	})
+	runC16Docs(c, func() *server.Server { return server.NewServerForVerif(newAdm()) })
 	srv := server.NewServerForVerif(newAdm())
 	ts := httptest.NewServer(http.HandlerFunc(srv.HandleValidate))
 	defer ts.Close()
